@@ -60,6 +60,36 @@ def install_tap():
     _TAP_INSTALLED = True
 
 
+EMPTY_READS = {}      # client-side (ip, port) -> {"k": index of the read() that yields b"", "count": reads so far}
+
+
+def install_empty_read_injector():
+    """One read() of a chosen client connection yields b"" although the stream goes on (the unit tests' notion of an
+    "empty reply").  Done on asyncio.StreamReader itself, keyed by the connection's local address, so nothing private of
+    the library is touched; a client that does not read through StreamReader.read simply never triggers it."""
+    if getattr(asyncio.StreamReader, "_verif_patched", False):
+        return
+    orig = asyncio.StreamReader.read
+
+    async def read(self, n=-1):
+        data = await orig(self, n)
+        if EMPTY_READS:
+            try:
+                key = tuple(self._transport.get_extra_info("sockname")[:2])
+            except Exception:
+                key = None
+            ent = EMPTY_READS.get(key)
+            if ent is not None:
+                i = ent["count"]
+                ent["count"] += 1
+                if i == ent["k"]:
+                    ent["hit"] = True
+                    return b""
+        return data
+    asyncio.StreamReader.read = read
+    asyncio.StreamReader._verif_patched = True
+
+
 class Conn:
     def __init__(self, port, peer):
         self.port = port
